@@ -143,10 +143,12 @@ class C08(Check):
                                              for m in names for pn in names[m]]
             rng.shuffle(allspecs)
             t0 = rng.choice([0.05, 0.1])
+            opc = rng.random() < 0.5
             for c in range(nconn):
                 first = rng.choice([0, 0.001])
                 for k in range(rng.randrange(1, 4)):
-                    ops.append({'c': c, 'kind': 'activate', 'spec': allspecs.pop() if allspecs else None,
+                    ops.append({'c': c, 'kind': 'activate',
+                                'spec': None if (opc and rng.random() < 0.5) or not allspecs else allspecs.pop(),
                                 'dt': first if k == 0 else 0})
                 if c < nconn - 1 or rng.random() < 0.5:
                     ops.append({'c': c, 'kind': 'close', 'spec': None, 'dt': max(0, t0 - first) if c == 0 else 0})
@@ -159,6 +161,9 @@ class C08(Check):
                     mine[1]['dt'] = t0
             shape['line_gaps'] = rng.choice([3, 5, 8])
             shape['focus'] = True
+            # (opc: global activations among the specific ones.  Pre-emption between byte code instructions - a
+            # read-modify-write of shared state inside one line - was tried here (kernel option trace_opcodes) and
+            # given up: runs did not replay in a fresh interpreter, see DESIGN.md 11)
         return {'shape': shape, 'ops': ops}
 
     def shrink_candidates(self, case):
